@@ -20,7 +20,7 @@ from types import MethodType
 
 from .constants import DefaultValue
 from .trait_base import Undefined, Uninitialized
-from .trait_errors import TraitError
+from .trait_errors import DelegationError, TraitError
 from .trait_notifiers import TraitChangeNotifyWrapper
 from .util.weakiddict import WeakIDKeyDict
 
@@ -385,8 +385,13 @@ class ListenerItem(ListenerBase):
             if optional:
                 name = name[:-1]
 
-            # Else, no wildcard matching, just get the specified trait:
-            trait = new.base_trait(name)
+            # Else, no wildcard matching, just get the specified trait. The
+            # base trait of a delegate cannot be resolved while its delegate
+            # is not set yet; use the delegate trait itself in that case:
+            try:
+                trait = new.base_trait(name)
+            except DelegationError:
+                trait = new.trait(name)
 
             # Try to get the object trait:
             if trait is None:
